@@ -393,7 +393,8 @@ theorem run_quantizeCoreP (c : Ctx) (d : Cell) (v : Src) (exp : Int) (h : Heap) 
   simp only [run_bind, run_rdExp, run_setDec, run_ite, run_pure, run_rdCoeff, run_wrCoeff, run_wrExp,
     run_numDigitsP, run_isZeroP, run_rdNeg, run_roundP, Heap.set_same, Heap.set_set, Src.val_cell]
   bcases h1 : exp - (v.val h).exp < 0
-  · bcases h2 : exp - (v.val h).exp < MinExponent
+  · cases h5 : (v.val h).isZero <;> bsimp [h5]
+    · bcases h2 : exp - (v.val h).exp < MinExponent
   bcases h3 : exp - (v.val h).exp > 0
   · bcases h4 : (ndigits (v.val h).coeff : Int) - (exp - (v.val h).exp) < 0
     · cases h5 : (v.val h).isZero <;> bsimp [h5]
